@@ -246,8 +246,29 @@ func c10Case(c *vc.Ctx, idx int) {
 	for _, t2 := range types {
 		t2 := t2
 		txs = append(txs, func() (c10Tx, bool) { return build([]string{typ, t2}, signers[0], nil, "", "none", "valid") })
-		if c.Thorough() {
+		isBlk := strings.HasSuffix(typ, "MsgNewEthBlock") || strings.HasSuffix(t2, "MsgNewEthBlock")
+		if c.Thorough() || isBlk {
+			// the block message is admissible only with timeout = the block's height: combinations with it are judged
+			// under that timeout in every tier, for the relayer proposer and for a validator (the usual author)
 			txs = append(txs, func() (c10Tx, bool) { return build([]string{typ, t2}, signers[0], nil, "", "next-height", "valid") })
+			if isBlk {
+				txs = append(txs, func() (c10Tx, bool) { return build([]string{typ, t2}, signers[2], nil, "", "next-height", "valid") })
+			}
+		}
+	}
+	if strings.HasSuffix(typ, "MsgNewEthBlock") {
+		// three messages: the block message first, then a bridge message and a message of a foreign module
+		for _, t2 := range types {
+			if inBridgeNamespaces(t2) || strings.HasSuffix(t2, "MsgNewEthBlock") {
+				continue
+			}
+			t2 := t2
+			for _, si := range []int{0, 2} {
+				si := si
+				txs = append(txs, func() (c10Tx, bool) {
+					return build([]string{typ, "/goat.relayer.v1.MsgAcceptProposerRequest", t2}, signers[si], nil, "", "next-height", "valid")
+				})
+			}
 		}
 	}
 	for _, t2 := range types[:min(len(types), 4)] {
